@@ -3,6 +3,16 @@
 import subprocess, json, os, sys, glob, re
 sys.path.insert(0, "/verif/vf")
 import config
+import shutil, tempfile
+# the evidence files are rewritten by every check run: keep the ones of the unchanged tree
+_ev_backup = tempfile.mkdtemp(prefix="evidence-backup.")
+shutil.copytree("/verif/evidence", os.path.join(_ev_backup, "evidence"))
+import atexit
+def _restore():
+    shutil.rmtree("/verif/evidence", ignore_errors=True)
+    shutil.copytree(os.path.join(_ev_backup, "evidence"), "/verif/evidence")
+    shutil.rmtree(_ev_backup, ignore_errors=True)
+atexit.register(_restore)
 tier = os.environ.get("TIER", "quick")
 only = sys.argv[1:]
 res = {}
